@@ -5,7 +5,7 @@ import math
 from hypothesis import strategies as st
 
 from .. import cachesim, env, lin
-from ..core import HarnessError
+from ..core import HarnessError, Violation
 from ..hyp import run_given
 from . import c02
 
@@ -157,6 +157,24 @@ def execute(ctx, case):
 
 
 def execute_processor(ctx, case):
+  try:
+    return execute_processor_(ctx, case)
+  except (HarnessError, Violation):
+    raise
+  except Exception as e:  # noqa: a legal datapoint is stored or refused with a signal, the store never raises
+    if not _in_code_under_test(e):
+      raise
+    ctx.fail('C10:store-raised:%s' % type(e).__name__, 'storing a legal datapoint through the write processor raised %r '
+             '(MAX_CACHE_SIZE=%d flow=%s strategy %s)' % (e, case['max_cache_size'], case['flow'], case['strategy']), case, 'signal')
+
+
+def _in_code_under_test(e):
+  import traceback
+  frames = traceback.extract_tb(e.__traceback__)
+  return bool(frames) and '/carbon/' in frames[-1].filename.replace('\\', '/')
+
+
+def execute_processor_(ctx, case):
   """Through the write processor, as the daemon stores: a tagged series fills the cache to its hard limit, then an
   already cached timestamp is sent again in another legal spelling of the same series.  It is an update: accepted,
   no overflow signal, size unchanged."""
